@@ -304,6 +304,11 @@ DevFor(E, cl) ==
   ELSE IF op = "FillNumpy" /\ cl \in {"state", "sem", "outcome", "unchanged", "wf"}
           /\ Ev.wf \in {"one", "scalar"} /\ LeadCount(pool[Ev.s].d)
     THEN "Dev_LeadingCountScalarWeight"
+  ELSE IF op \in {"Add", "Combine", "IAdd"} /\ cl \in {"state", "sem", "wf"} /\ Ok /\ Ev.boolstr
+          /\ (~pool[Ev.a].mut \/ ~pool[Ev.b].mut)
+    (* Categorize takes booleans as categories, JSON object keys are strings: a reloaded operand holds "True" where
+       the live one holds True, the merge keeps both (Ev.boolstr: the harness saw such a pair in the result) *)
+    THEN "Dev_ReloadedBoolCategoriesAreStrings"
   ELSE IF op = "Reload" /\ cl = "flags" /\ Ok /\ Ev.strict /\ ~Ev.fixpoint
           /\ EmptySparseNamed(pool[Ev.a].c, pool[Ev.a].d)
     THEN "Dev_ReloadedEmptySparseLosesChildName"
